@@ -305,7 +305,7 @@ impl Cluster {
         if h.se.l.hold.load(Ordering::SeqCst) {
             return;
         }
-        for _ in 0..20_000 {
+        for _ in 0..2_000 {
             if h.raft_log.durable_index() >= h.raft_log.last_entry_id() {
                 break;
             }
@@ -520,6 +520,7 @@ impl Cluster {
             }
             "Heartbeat" => self.do_heartbeat(g("n") as u32).await,
             "Client" => self.do_client(st).await,
+            "ClientBatch" => self.do_client_batch(st).await,
             "Crash" => self.do_crash(g("n") as u32).await,
             "Stop" => self.do_stop(g("n") as u32).await,
             "Restart" => self.do_restart(g("n") as u32).await,
@@ -859,6 +860,36 @@ impl Cluster {
         true
     }
 
+    /// Several client commands handed to the node in ONE drain of its command channel
+    /// (`push_client_cmd` x n, then one `flush_cmd_buffers`).
+    async fn do_client_batch(
+        &mut self,
+        st: &Value,
+    ) -> bool {
+        let n = st.get("n").and_then(|x| x.as_u64()).unwrap_or(0) as u32;
+        if !self.is_up(n) || self.is_busy(n) {
+            return false;
+        }
+        let ops: Vec<Value> = st.get("ops").and_then(|x| x.as_array()).cloned().unwrap_or_default();
+        let mut cmds = vec![];
+        for op in ops.iter() {
+            let mut op = op.clone();
+            op["n"] = json!(n);
+            if let Some(c) = self.make_cmd(&op, n) {
+                cmds.push(c);
+            }
+        }
+        if cmds.is_empty() {
+            return false;
+        }
+        let r = self.raft(n).unwrap().verif_client(cmds).await;
+        if let Err(e) = r {
+            self.events.push(json!({"e":"ClientCmdErr","n":n,"err":format!("{e:?}")}));
+        }
+        self.settle().await;
+        true
+    }
+
     async fn do_client(
         &mut self,
         st: &Value,
@@ -867,6 +898,21 @@ impl Cluster {
         if !self.is_up(n) || self.is_busy(n) {
             return false;
         }
+        let Some(cmd) = self.make_cmd(st, n) else { return false };
+        let r = self.raft(n).unwrap().verif_client(vec![cmd]).await;
+        if let Err(e) = r {
+            self.events.push(json!({"e":"ClientCmdErr","n":n,"err":format!("{e:?}")}));
+        }
+        self.settle().await;
+        true
+    }
+
+    /// Build one client command, register it as an outstanding operation, emit ClientInvoke.
+    fn make_cmd(
+        &mut self,
+        st: &Value,
+        n: u32,
+    ) -> Option<ClientCmd> {
         let s = |k: &str| st.get(k).and_then(|x| x.as_str()).unwrap_or("").to_string();
         let kind = s("op");
         let key = s("key");
@@ -930,7 +976,7 @@ impl Cluster {
                 },
                 tx,
             ),
-            _ => return false,
+            _ => return None,
         };
         self.events.push(json!({"e":"ClientInvoke","id":id,"node":n,"kind":kind,"key":key,"val":val,
             "exp":exp,"policy":policy}));
@@ -948,14 +994,8 @@ impl Cluster {
             lost: false,
             ok: None,
         });
-        let r = self.raft(n).unwrap().verif_client(vec![cmd]).await;
-        if let Err(e) = r {
-            self.events.push(json!({"e":"ClientCmdErr","n":n,"err":format!("{e:?}")}));
-        }
-        self.settle().await;
-        true
+        Some(cmd)
     }
-
     /// Record one inner step of a macro step as a trace record of its own.
     async fn sub(
         &mut self,
@@ -1086,9 +1126,13 @@ impl Cluster {
                 let ok = self.do_restart(*n).await;
                 self.sub(json!({"a":"Restart","n":*n}), ok).await;
             }
-            if let Some(h) = self.slots[n].h.as_ref() {
-                h.se.l.hold.store(false, Ordering::SeqCst);
+            let held = self.slots[n].h.as_ref().map(|h| {
                 h.sm.hold.store(false, Ordering::SeqCst);
+                h.se.l.hold.load(Ordering::SeqCst)
+            });
+            if held == Some(true) {
+                self.do_hold_io(*n, false).await;
+                self.sub(json!({"a":"HoldIo","n":*n,"on":0}), true).await;
             }
         }
         self.do_drain(1).await;
@@ -1333,7 +1377,9 @@ impl Cluster {
         }
         self.slots[&n].h.as_ref().unwrap().se.l.hold.store(on, Ordering::SeqCst);
         if !on {
-            std::thread::sleep(Duration::from_millis(2));
+            // the IO task picks the backlog up on its next wake-up; an explicit flush is that wake-up
+            let log = self.slots[&n].h.as_ref().unwrap().raft_log.clone();
+            let _ = log.flush().await;
         }
         self.settle().await;
         true
